@@ -120,7 +120,8 @@ class JSONFormatter(Formatter):
         if step.text:
             text = step.text
             if self.split_text_into_lines and "\n" in text:
-                text = text.splitlines()
+                # -- KEEP: Trailing empty line(s) of a multi-line text.
+                text = text.split("\n")
             s["text"] = text
         if step.table:
             s["table"] = self.make_table(step.table)
